@@ -163,6 +163,49 @@ func genVest(g *Gen, n int) {
 			fresh++
 			return vaddr(fresh)
 		}
+		// directed shapes (independent of how the random part below happens to fall): every 4th
+		// scenario starts with an owner whose pools mature in an order different from their creation
+		// order and is withdrawn in between; every 4th+1 with a vesting-account owner asking for a
+		// pool above its spendable balance (bank transfer fails after the pre-check passed)
+		switch sc % 4 {
+		case 0:
+			o := vaddr(8)
+			owners = append(owners, o)
+			g.emit("v.fund %s [%s=%s]", o, den, "1000000000000000000000000000")
+			durs := []int64{g.pickI(30*86400*sec, 3600*sec), g.pickI(sec, 60*sec), g.pickI(600*sec, 7200*sec)}
+			for i, d := range durs {
+				amt := g.logBig(6 + g.intn(14))
+				g.emit("v.createPool %s s%d %s %d %s", atok(o), i, amt, d, vts[0])
+				pools = append(pools, gPool{o, fmt.Sprintf("s%d", i), now + d, amt, vts[0]})
+			}
+			order := []int{1, 2, 0}
+			for _, i := range order {
+				now = pools[len(pools)-3+i].lockEnd + g.pickI(0, 1, sec)
+				g.emit("v.time %d", now)
+				g.emit("v.q.pools %s", o)
+				g.emit("v.withdraw %s", atok(o))
+				if g.chance(0.5) {
+					fresh++
+					g.emit("v.send %s %s s%d %s %d", atok(o), atok(vaddr(fresh)), (i+1)%3, g.pick("0", "1", "1000"), g.intn(2))
+				}
+			}
+			g.count("shape/staggered-lock-ends")
+		case 1:
+			va := vaddr(9)
+			ov := g.logBig(15)
+			extra := big.NewInt(int64(1 + g.intn(1000)))
+			g.emit("v.acct %s cva [%s=%s] %d %d", va, den, ov, now/sec-g.pickI(0, 10), now/sec+g.pickI(100000, 10000000))
+			g.emit("v.fund %s [%s=%s]", va, den, new(big.Int).Add(ov, extra))
+			owners = append(owners, va)
+			cvas = append(cvas, va)
+			// above the spendable part, within the total balance
+			g.emit("v.createPool %s big %s %d %s", atok(va), new(big.Int).Add(extra, big.NewInt(int64(1+g.intn(5)))), g.pickI(sec, 3600*sec), vts[0])
+			g.emit("v.q.pools %s", va)
+			g.emit("v.createPool %s ok %s %d %s", atok(va), extra, g.pickI(sec, 3600*sec), vts[0])
+			pools = append(pools, gPool{va, "ok", now + 3600*sec, extra, vts[0]})
+			g.emit("v.q.pools %s", va)
+			g.count("shape/vesting-owner-above-spendable")
+		}
 		nops := 6 + g.intn(20)
 		for i := 0; i < nops; i++ {
 			switch g.intn(14) {
